@@ -15,7 +15,7 @@ import (
 
 // ScheduleFile is the input of `edsim schedules`: the configuration the model was run with and the label sequences.
 type ScheduleFile struct {
-	Config    string     `json:"config"` // rollout | canary
+	Config    string     `json:"config"` // rollout | canary | settings
 	Nodes     []string   `json:"nodes"`
 	Tmpls     []string   `json:"tmpls"`
 	Schedules [][]string `json:"schedules"`
@@ -61,6 +61,12 @@ func runSchedules(a CLIArgs) int {
 			sc.APMaxRestarts, sc.AFMaxRestarts = 0, 0
 		}
 		d.Strategy[Key] = sc
+		if sf.Config == "settings" {
+			// behaviours of spec/SettingsSys.tla: the first label carries the initial node groups
+			replaySettings(d, sf, sch, &labels, &skipped)
+			d.Converge(30)
+			continue
+		}
 		for _, n := range sf.Nodes {
 			d.Apply(Action{Op: "NodeAdd", N: n, V: strings.Join(sf.Tmpls, ","), W: "c;z=z1"})
 		}
@@ -149,6 +155,71 @@ func runSchedules(a CLIArgs) int {
 	d.Flush()
 	fmt.Printf("{\"schedules\":%d,\"labels\":%d,\"skipped\":%d,\"events\":%d}\n", len(sf.Schedules), labels, skipped, d.NEvents)
 	return 0
+}
+
+// replaySettings replays one behaviour of spec/SettingsSys.tla: settings are created / deleted / reconciled, nodes relabelled,
+// the clock ticks and the replica set of ExtendedDaemonSet foo syncs, in the order the model chose.
+func replaySettings(d *Driver, sf ScheduleFile, sch []string, labels, skipped *int) {
+	res := map[string]string{"s1": "r1", "s2": "r2", "s3": "r3"}
+	for li, lab := range sch {
+		*labels++
+		p := strings.Split(lab, ":")
+		var act Action
+		switch p[0] {
+		case "Init":
+			if li != 0 {
+				*skipped++
+				continue
+			}
+			for _, kv := range p[1:] {
+				ng := strings.SplitN(kv, "=", 2)
+				d.Apply(Action{Op: "NodeAdd", N: ng[0], V: strings.Join(sf.Tmpls, ","), W: "c;z=z1"})
+				if len(ng) == 2 && ng[1] != "" {
+					d.Apply(Action{Op: "NodeGroup", N: ng[0], V: ng[1]})
+				}
+			}
+			d.Apply(Action{Op: "CreateEDS", Key: Key, T: sf.Tmpls[0]})
+			d.Apply(Action{Op: "EDSReconcile", Key: Key}) // defaulting
+			d.Apply(Action{Op: "EDSReconcile", Key: Key}) // replica set
+			d.Apply(Action{Op: "EDSReconcile", Key: Key}) // active
+			continue
+		case "CreateSetting":
+			// CreateSetting:<name>:<ref>:<group>  ("" group = unusable selector)
+			for len(p) < 4 {
+				p = append(p, "")
+			}
+			sel := p[3]
+			if sel == "" {
+				sel = "!bad"
+			}
+			expr := ""
+			if p[1] == "s2" {
+				expr = "expr"
+			}
+			act = Action{Op: "CreateSetting", Key: Key, V: p[1], W: p[2] + "|" + sel + "|" + res[p[1]] + "|" + expr, I: 0}
+		case "DeleteSetting":
+			act = Action{Op: "DeleteSetting", Key: Key, V: p[1]}
+		case "NodeGroup":
+			for len(p) < 3 {
+				p = append(p, "")
+			}
+			act = Action{Op: "NodeGroup", N: p[1], V: p[2]}
+		case "Tick":
+			act = Action{Op: "Tick", V: "1"}
+		case "SettingReconcile":
+			act = Action{Op: "SettingReconcile", Key: "ns1/" + p[1]}
+		case "SettingsDone":
+			act = Action{Op: "Mark", V: "SettingsDone"}
+		case "ERSReconcile":
+			act = Action{Op: "ERSReconcile", Key: Key, T: sf.Tmpls[0]}
+		default:
+			*skipped++
+			continue
+		}
+		if _, ok := d.Apply(act); !ok {
+			*skipped++
+		}
+	}
 }
 
 func init() {
